@@ -173,3 +173,40 @@ func VerifH_C17_ExtractRootFile() {
 	vAssert("outside-file-intact", ok && string(sec) == "secret")
 	vCover("root-file-extracted", eerr == nil)
 }
+
+// VerifH_C17_ExtractDeepNames: a symlink entry with a one-byte name (target "..", "../outside"
+// or "." ) followed by an entry whose name is five bytes over {a, b, /} - long enough to route
+// through the symlink and two further levels - being a sub-directory or a file.
+func VerifH_C17_ExtractDeepNames() {
+	ls := vLinkSystem()
+	fileL, fsz, err := builder.BuildUnixFSFile(bytes.NewReader([]byte("PWNED")), "", ls)
+	vAssert("file-built", err == nil)
+	inner, err := builder.BuildUnixFSDirectoryEntry("x", int64(fsz), fileL)
+	vAssert("entry-built", err == nil)
+	subdirL, _, err := builder.BuildUnixFSDirectory([]dagpb.PBLink{inner}, ls)
+	vAssert("subdir-built", err == nil)
+	out := vFSPath("out")
+	outside := vFSPath("outside")
+	vFSMkdir(out)
+	vFSMkdir(outside)
+	vFSWriteFile(outside+"/secret", []byte("secret"))
+	targets := []string{"..", "../outside", "."}
+	symL, _, err := builder.BuildUnixFSSymlink(targets[vChoose("target", len(targets))], ls)
+	vAssert("symlink-built", err == nil)
+	n1 := vBytes("n1", 1)
+	vAssume(vOr(n1[0] == 'a', n1[0] == 'b'))
+	n2 := vBytes("n2", 5)
+	for _, c := range n2 {
+		vAssume(vOr(vOr(c == 'a', c == 'b'), c == '/'))
+	}
+	second := subdirL
+	if vChoose("secondIsFile", 2) == 1 {
+		second = fileL
+	}
+	dir := &vDirNode{entries: []vDirEntry{{string(n1), symL}, {string(n2), second}}}
+	vFSMarkFor(out)
+	_, eerr := extractDir(context.Background(), ls, dir, out, "/", nil, false, io.Discard)
+	vAssert("nothing-outside-output-dir-changed", !vFSOutsideChanged(out))
+	vCover("deep-extracted", eerr == nil)
+	vCover("deep-refused", eerr != nil)
+}
